@@ -186,10 +186,10 @@ func (e *env) resetWorld(md *model) error {
 
 func main() {
 	r := ev.New("C14", "exploration")
-	r.Rule("one case = one sequential history of 40 single commands on a freshly reset cluster (store 1 Up, 3 regions on it): put-store new / same id / same address / id 0 / bad version (RaftCluster.PutStore and gRPC PutStore), RemoveStore with and without physically-destroyed, UpStore, VerifBuryStore, VerifCheckStores, SetStoreWeight, UpdateStoreLabels (merge and force), RemoveTombStoneRecords, gRPC StoreHeartbeat, region placements / evacuations by region heartbeats; targets are drawn from ids 1..6 in every state (incl. tombstone, destroyed, absent); quick: one fail-before/lost-ack fault at a random write of ~1/3 of the steps; thorough: every step is re-issued with a fault at its 1st, 2nd, ... store-record write until no write is left (1/8 of the steps: at every write of any key). distinct = sequence of (command, state of the target before, outcome class, fault class) of the history")
+	r.Rule("one case = one sequential history of 40 single commands on a freshly reset cluster (store 1 Up, 3 regions on it): put-store new / same id / same address / id 0 / bad version (RaftCluster.PutStore and gRPC PutStore), RemoveStore with and without physically-destroyed, UpStore, VerifBuryStore, VerifCheckStores, SetStoreWeight, UpdateStoreLabels (merge and force), RemoveTombStoneRecords, gRPC StoreHeartbeat, region placements / evacuations by region heartbeats (sometimes with a peer on a store id that is registered only later), reload of the cluster from storage (RaftCluster.Stop, empty cache, RaftCluster.Start = LoadClusterInfo); targets are drawn from ids 1..6 in every state (incl. tombstone, destroyed, absent); quick: one fail-before/lost-ack fault at a random write of ~1/3 of the steps; thorough: every step is re-issued with a fault at its 1st, 2nd, ... store-record write until no write is left (1/8 of the steps: at every write of any key). distinct = sequence of (command, state of the target before, outcome class, fault class) of the history")
 	r.Assume("commands are invoked on the RaftCluster object / the gRPC handler methods of a real bootstrapped single-member server; the cluster and the server use core.NewStorage over an instrumented in-memory kv.Base installed with RaftCluster.SetStorage after bootstrap (thorough, last shard: the etcd-backed kv.Base)")
 	r.Assume("storage writes of the server's own background goroutines (10 s checkStores tick, coordinator) are refused by the harness wrapper so that histories are sequential; the same code is driven through VerifCheckStores")
-	r.Assume("region counts of the model are the placements the harness delivered through VerifProcessRegionHeartbeat and pd acknowledged; VerifBuryStore is only called when its documented precondition (store empty) holds in the model; new stores are registered in state Up; peers are never placed on tombstone or unknown stores")
+	r.Assume("region counts of the model are the placements the harness delivered through VerifProcessRegionHeartbeat and pd acknowledged; VerifBuryStore is only called when its documented precondition (store empty) holds in the model; new stores are registered in state Up; peers are never placed on tombstone stores; after a reload the model's placements are what the stored region records (raw scan of raft/r/<id>) say")
 	r.Assume("stored record = what a raw scan of raft/s/<id> and schedule/store_weight/<id>/{leader,region} (absent weight = 1) yields; comparisons ignore last_heartbeat")
 	rng := rand.New(rand.NewSource(r.ShardSeed()))
 
@@ -283,7 +283,7 @@ func main() {
 		m.Close()
 		r.Finish()
 	}
-	for _, c := range []string{"hook_VerifCheckStores", "hook_VerifBuryStore", "hook_VerifProcessRegionHeartbeat", "faults_injected", "transition_Up->Offline", "transition_Offline->Tombstone", "transition_Offline->Up", "tombstone_grpc_requests", "record_deleted"} {
+	for _, c := range []string{"hook_VerifCheckStores", "hook_VerifBuryStore", "hook_VerifProcessRegionHeartbeat", "faults_injected", "reloads", "placements_on_unregistered_store_id", "transition_Up->Offline", "transition_Offline->Tombstone", "transition_Offline->Up", "tombstone_grpc_requests", "record_deleted"} {
 		if r.Counter(c) == 0 {
 			r.Inconclusive("nothing observed for %s", c)
 		}
@@ -391,7 +391,29 @@ func (e *env) scripted(md *model) {
 			{st: &step{Cmd: "storehb", ID: 2}},
 		}...),
 	}
-	for i, name := range []string{"lifecycle", "witness-merge-labels", "witness-heartbeat-after-cleanup"} {
+	// an offline store that still holds peers must survive the background check after a reload
+	scripts["reload-keeps-peers"] = []sc{
+		{st: &step{Cmd: "put", Via: "grpc", ID: 2, Addr: "tikv-a:20160", Version: "5.0.0"}},
+		{st: &step{Cmd: "weight", ID: 1, LW: 2, RW: 0.5}},
+		{st: &step{Cmd: "remove", ID: 1}},
+		{st: &step{Cmd: "reload"}},
+		{st: &step{Cmd: "checkstores"}},
+		{st: &step{Cmd: "up", ID: 1}},
+		{st: &step{Cmd: "remove", ID: 1, Destroyed: true}},
+		{st: &step{Cmd: "reload"}},
+		{st: &step{Cmd: "up", ID: 1}},
+		{st: &step{Cmd: "checkstores"}},
+	}
+	// ... and so must a store whose peers were reported before it was registered
+	scripts["peer-before-registration"] = []sc{
+		{st: &step{Cmd: "region", Region: 20, Peers: []uint64{1, 3}}},
+		{st: &step{Cmd: "put", Via: "grpc", ID: 3, Addr: "tikv-c:20160", Version: "5.0.0"}},
+		{st: &step{Cmd: "remove", ID: 3}},
+		{st: &step{Cmd: "checkstores"}},
+		{st: &step{Cmd: "region", Region: 20, Peers: []uint64{1}}},
+		{st: &step{Cmd: "checkstores"}},
+	}
+	for i, name := range []string{"lifecycle", "witness-merge-labels", "witness-heartbeat-after-cleanup", "reload-keeps-peers", "peer-before-registration"} {
 		if err := e.resetWorld(md); err != nil {
 			e.r.Inconclusive("scripted %s: %v", name, err)
 			return
